@@ -788,10 +788,22 @@ def reset_random_states():
             rs.set_state(rs._symx_state0)
             alive.append(ref)
     _RS_REGISTRY[:] = alive
+    for g, st in _GEN_REGISTRY:
+        g.bit_generator.state = st
+
+
+_GEN_REGISTRY = []
+
+
+def _tracked_default_rng(seed=None):
+    g = _np.random.default_rng(seed)
+    _GEN_REGISTRY.append((g, g.bit_generator.state))
+    return g
 
 
 class _RandomModuleFacade:
     RandomState = _TrackedRandomState
+    default_rng = staticmethod(_tracked_default_rng)
 
     def __getattr__(self, name):
         return getattr(_np.random, name)
